@@ -80,6 +80,8 @@ inductive Expr where
   | matchFn (s : Expr) (re : Regex)
   /-- `getline`, `getline lv`, `getline < file`, `getline lv < file` -/
   | getline (lv : Option Expr) (file : Option Expr)
+  /-- `cmd | getline`, `cmd | getline lv` (commands of the shapes `cat NAME` and `echo WORDS` are inside the profile) -/
+  | getlineCmd (lv : Option Expr) (cmd : Expr)
   | close (e : Expr)
   deriving Repr, Inhabited
 
@@ -88,6 +90,7 @@ inductive Redir where
   | none
   | trunc (file : Expr)    -- `> file`
   | append (file : Expr)   -- `>> file`
+  | pipe (cmd : Expr)      -- `| command` (only commands of the shape `cat > NAME` are inside the profile)
   deriving Repr, Inhabited
 
 inductive Stmt where
